@@ -40,8 +40,11 @@ Print Assumptions C01_den_roundtrip_checked.
    sub-fragment [c01r_body] where the validator provably moves through the same contexts on the
    decoded stream: as above, minus zeros written as floats or decimals (they come back as integers),
    whole arrays that need the regular header, string-like / media / custom events in one call, and
-   chunked arrays delivered with several data events per chunk or short enough for the short form
-   (all of which the decoder reports through the other array API). *)
+   chunked arrays short enough for the short form (all of which the decoder reports through the other
+   array API).  Chunked arrays, media and custom binary whose chunks arrive in ANY number of data
+   events are covered (the decoder reports one data event per non-empty chunk; by
+   RulesArrayProofs the validator's contexts do not depend on how a chunk's bytes are cut),
+   provided the byte total of the array stays below 2^64. *)
 Theorem C01_roundtrip_rules :
   forall rcfg cfg body nbody doc,
   RulesPart.c01r_body body nbody ->
